@@ -6,6 +6,10 @@ import os, subprocess, sys, time, json
 ROOT = os.path.dirname(os.path.dirname(os.path.abspath(__file__)))
 sys.path.insert(0, os.path.join(ROOT, "selftest"))
 REPO = os.environ.get("VERIF_REPO", "/repo")
+# private scratch roots, so that other checks running in /verif at the same time are not disturbed
+SCRATCH = os.path.join(ROOT, ".work", "selftest-%d" % os.getpid())
+os.environ["VERIF_WORKROOT"] = os.path.join(SCRATCH, "work")
+os.environ["VERIF_REPLAYROOT"] = os.path.join(SCRATCH, "replays")
 
 def sh(cmd, cwd=None, env=None, timeout=3600):
     p = subprocess.run(cmd, cwd=cwd, env=env, shell=isinstance(cmd, str), stdout=subprocess.PIPE, stderr=subprocess.STDOUT, timeout=timeout)
@@ -67,7 +71,7 @@ def main():
             rc, out = sh(["./check", pid, tier], cwd=ROOT, env=dict(os.environ, VERIF_REPO=REPO))
             res[pid] = (rc, round(time.time() - t0, 1))
         clean()
-        sh("rm -rf %s/.work/* %s/replays" % (ROOT, ROOT))
+        sh("rm -rf %s" % SCRATCH)
         verdict = "CAUGHT" if all(v[0] == 1 for v in res.values()) else "MISSED"
         rows.append((name, props, verdict, res))
         print("%-40s %-7s %s" % (name, verdict, " ".join("%s:rc=%d(%.0fs)" % (k, v[0], v[1]) for k, v in res.items())), flush=True)
